@@ -633,7 +633,7 @@ func (c *FnCtx) typeAssert(fr *Frame, st *State, x *ssa.TypeAssert) {
 		fr.regs[x] = Tuple{val, ok}
 	} else {
 		c.addObl(st, "assert-type", fmt.Sprintf("#%d %s.(%s)", c.kindOrd["assert-type"], x.X.Name(), types.TypeString(x.AssertedType, types.RelativeTo(c.eng.ld.Pkg))), ok, x.Pos(), "type assertion may panic")
-		c.addFact(st, ok)
+		c.assumeChecked(st, ok)
 		fr.regs[x] = val
 	}
 	if !ok.IsFalse() {
@@ -643,6 +643,11 @@ func (c *FnCtx) typeAssert(fr *Frame, st *State, x *ssa.TypeAssert) {
 			stc = &State{pc: ts.And(st.pc, ok), wm: st.wm}
 		}
 		c.readFacts(stc, val, x.AssertedType)
+		if typeKey(x.AssertedType) == "[]interface{}" && val.kind != kLit {
+			bv := ts.Bound("h", SInt)
+			hv := c.height(stc, v)
+			c.addFactNth(stc, val, ts.Quant("forall", bv, ts.Implies(ts.And(ts.Le(ts.Int(0), bv), ts.Lt(bv, ts.Len(val))), ts.Lt(c.height(stc, ts.Nth(val, bv)), hv))))
+		}
 		if _, isMap := x.AssertedType.Underlying().(*types.Map); isMap {
 			// domain assumption: an interface value never holds a nil map (decoders and literals never produce one)
 			c.trusted["domain: interface values never hold a typed nil map"] = true
@@ -699,7 +704,7 @@ func (c *FnCtx) sliceOp(fr *Frame, st *State, x *ssa.Slice) {
 	}
 	goal := ts.And(ts.Le(ts.Int(0), lo), ts.Le(lo, hi), ts.Le(hi, bound))
 	c.addObl(st, "slice", fmt.Sprintf("#%d %s", c.kindOrd["slice"], srcText(c, x)), goal, x.Pos(), "slice bounds out of range")
-	c.addFact(st, goal)
+	c.assumeChecked(st, goal)
 	if bound != n {
 		// reslicing beyond len within capacity exposes unknown elements
 		r := ts.Fresh("reslice", s.sort)
@@ -741,7 +746,7 @@ func (c *FnCtx) indexAddr(fr *Frame, st *State, x *ssa.IndexAddr) {
 	}
 	s := fr.val(x.X).(*Term)
 	c.addObl(st, "bounds", fmt.Sprintf("#%d %s", c.kindOrd["bounds"], srcText(c, x)), ts.And(ts.Le(ts.Int(0), i), ts.Lt(i, ts.Len(s))), x.Pos(), "index out of range")
-	c.addFact(st, ts.And(ts.Le(ts.Int(0), i), ts.Lt(i, ts.Len(s))))
+	c.assumeChecked(st, ts.And(ts.Le(ts.Int(0), i), ts.Lt(i, ts.Len(s))))
 	if o, ok := fr.origin[x.X]; ok && c.load(st, o) == s {
 		fr.regs[x] = &PtrVal{cell: o.cell, obj: o.obj, root: o.root, path: append(append([]Sel{}, o.path...), Sel{isIdx: true, idx: i, typ: xt})}
 		return
@@ -789,7 +794,24 @@ func (c *FnCtx) mapGet(st *State, mt types.Type, m, k *Term) (val, ok *Term) {
 	if c.noObl == 0 && len(c.mapReads) < 400 {
 		c.mapReads = append(c.mapReads, mapRead{mt: mt, m: m, k: k, ok: ok, val: val, ln: ln})
 	}
+	if val.sort == SVal && mh.vs == SVal && mh.ks == SString {
+		// Maps are finite trees: an entry is strictly lower than the map holding it
+		hv := c.height(st, val)
+		hp := c.height(st, ts.App("VMap", SVal, m))
+		c.addFactT(st, hv, ts.Implies(ok, ts.Lt(hv, hp)))
+	}
 	return
+}
+
+// height: ghost nesting height of a value (maps and lists strictly above their members) in the current heap.
+func (c *FnCtx) height(st *State, v *Term) *Term {
+	ts := c.eng.ts
+	mt := types.NewMap(types.Typ[types.String], types.NewInterfaceType(nil, nil))
+	mh := c.mapHeaps(st, mt)
+	h := ts.UF("height", SInt, c.heap(st, mh.dom, mh.sdom), c.heap(st, mh.sel, mh.ssel), v)
+	c.addFactT(st, h, ts.And(ts.Le(ts.Int(0), h), ts.Le(h, ts.BigInt("4294967296"))))
+	c.trusted["domain: Maps are finite acyclic trees (nesting height below 2^32); ghost function height() is assumed, not computed"] = true
+	return h
 }
 
 // mapFacts: len >= 0; nil map is empty.
@@ -819,7 +841,7 @@ func (c *FnCtx) mapUpdate(fr *Frame, st *State, x *ssa.MapUpdate) {
 	k := c.toTerm(st, fr.val(x.Key), mtt.Key())
 	v := c.toTerm(st, fr.val(x.Value), mtt.Elem())
 	c.addObl(st, "nilmap", fmt.Sprintf("#%d %s", c.kindOrd["nilmap"], x.Map.Name()), ts.Not(ts.Eq(m, ts.Int(0))), x.Pos(), "assignment to entry in nil map")
-	c.addFact(st, ts.Not(ts.Eq(m, ts.Int(0))))
+	c.assumeChecked(st, ts.Not(ts.Eq(m, ts.Int(0))))
 	c.mapSet(st, mt, m, k, v)
 }
 
